@@ -153,13 +153,9 @@ class HasFilter(FindFilter):
                     return True
 
         elif value is not None and not is_undefined(value):
-            return any(
-                (itm for itm in left if _getitem(itm, key) == value),
-            )
+            return any(_getitem(itm, key) == value for itm in left)
 
         else:
-            return any(
-                (itm for itm in left if is_truthy(_getitem(itm, key))),
-            )
+            return any(is_truthy(_getitem(itm, key)) for itm in left)
 
         return False
